@@ -191,6 +191,13 @@ fam!(value_both V44 [flavor = "enforce_order", forbid_excess_udt_fields] { a: i3
 // by-name row: rename + skip next to two flattened structs
 fam!(row_ser R36 [] { #[scylla(rename = "aa")] a: i32, #[scylla(skip)] s: i32, #[scylla(flatten)] f1: FIn1, #[scylla(flatten)] f3: FIn3 });
 
+// 7-field structs: enumerated in the THOROUGH tier only (5040 orders each, see THOROUGH_ONLY)
+fam!(value_both V50 [] { a: i32, b: Option<String>, c: bool, d: Option<i64>, e: f64, f: Vec<i32>, g: i32 });
+fam!(value_both V51 [flavor = "enforce_order"] { a: i32, #[scylla(allow_missing)] b: Option<String>, c: bool, #[scylla(default_when_null)] d: i64, e: f64, #[scylla(allow_missing)] f: Vec<i32>, #[scylla(allow_missing)] g: i32 });
+fam!(row_both R50 [] { a: i32, b: Option<String>, c: bool, #[scylla(default_when_null)] d: i64, e: f64, #[scylla(rename = "eff")] f: Vec<i32>, g: i32 });
+/// structs that only the thorough tier enumerates
+pub const THOROUGH_ONLY: &[&str] = &["V50", "V51", "R50"];
+
 // single-derive structs (attribute sets that only one of the two value macros documents)
 fam!(value_ser V13 [] { a: i32, b: Option<String>, c: i64 });
 fam!(value_de V14 [] {
@@ -296,6 +303,9 @@ pub fn family() -> Vec<Entry> {
         V19::entry(),
         V35::entry(),
         V36::entry(),
+        V50::entry(),
+        V51::entry(),
+        R50::entry(),
         NIn::entry(),
         NInO::entry(),
         N01::entry(),
